@@ -50,6 +50,7 @@ struct Side
 	std::int64_t t_last_rx = 0;
 	bool closed = false;
 	bool stop = false; // do not start new operations (scenario is winding down this connection)
+	bool reads_cannot_complete = false; // the scenario guarantees no data will ever arrive (C04's error-code rule)
 	std::function<void(Side&)> on_progress; // called after every completion
 
 	void reset_stream(std::uint64_t tx, std::uint64_t rx_)
@@ -178,12 +179,12 @@ struct Side
 		if (rstyle == 0)
 		{
 			auto b = make_rbufs(pick_read_total());
-			rop = ops->make("tcp.read", obj_id);
+			rop = ops->make("tcp.read", obj_id, reads_cannot_complete);
 			API(sock->async_read_some(b, track2(rop, [this](error_code const& ec, std::size_t n) { on_read(ec, n); })));
 		}
 		else
 		{
-			rop = ops->make("tcp.wait_read", obj_id);
+			rop = ops->make("tcp.wait_read", obj_id, reads_cannot_complete);
 			API(sock->async_wait(sock_t::wait_read, track1(rop, [this](error_code const& ec) { on_wait_read(ec); })));
 		}
 	}
@@ -217,6 +218,7 @@ struct Side
 			if (on_progress) on_progress(*this);
 			return;
 		}
+		if (!sock || stop || closed) { if (on_progress) on_progress(*this); return; }
 		// drain with non-blocking reads
 		for (int guard = 0; guard < 100000; ++guard)
 		{
